@@ -50,7 +50,8 @@ var c15ClientDefects = []string{"iss-other", "iss-absent", "sub-other", "sub-abs
 
 func buildClientAssertion(rt *rapid.T, sp assertionSpec, jti string, usedJTI string, sendClientID bool) (string, []string) {
 	now := h.Now()
-	claims := map[string]interface{}{"iss": "jwt-client", "sub": "jwt-client", "aud": h.TokenURL, "jti": jti, "exp": now.Add(5 * time.Minute).Unix(), "iat": now.Unix()}
+	life := time.Duration(rapid.SampledFrom([]int{60, 300, 300, 600, 3600}).Draw(rt, "assertionLifetime")) * time.Second
+	claims := map[string]interface{}{"iss": "jwt-client", "sub": "jwt-client", "aud": h.TokenURL, "jti": jti, "exp": now.Add(life).Unix(), "iat": now.Unix()}
 	if rapid.Bool().Draw(rt, "audAsList") {
 		claims["aud"] = []string{"https://elsewhere.example", h.TokenURL}
 	}
@@ -267,6 +268,9 @@ func TestC15_ClientAssertions(t *testing.T) {
 				_, cl, _ := h.DecodeJWT(tok)
 				if j, ok := cl["jti"].(string); ok {
 					exp := h.Now().Add(5 * time.Minute)
+					if f, ok := cl["exp"].(float64); ok && f > 0 {
+						exp = time.Unix(int64(f), 0)
+					}
 					usedJTIs = append(usedJTIs, used{j, exp})
 					accepted = append(accepted, struct {
 						tok string
